@@ -16,5 +16,6 @@ def run(ctx):
         "boundary lengths {1,2,4095..4097,32639..32641,32767..32769,65535..65537,1MiB+1,3MiB+7}+random are written in both directions simultaneously with "
         "write sizes {1,7,4095,4096,4097,32640,32768,32769,65536,100003,whole,random partition}; oracle: online comparison at both observation points, "
         "conservation and end-of-stream exactly at the written length; stall rule instead of timeouts. Quick = Latin-square sample per carrier, "
+        "plus, on dns, dns+starttls, udp and ws, one connection on which writes of 1, 2, 3, ... 420 (thorough 1300) bytes are each delivered before the next is written, once per direction (every frame / fragment / name length occurs); "
         "thorough = full length x write-size product on stream carriers. Distinct = (carrier, listener, lengths, write sizes, content); non-trivial = the comparison ran to a verdict.",
         ["loopback sockets and in-process pipes stand for the network", "DNS and KCP payloads are limited in size (70 KiB / 128 KiB quick)"])
